@@ -657,6 +657,19 @@ def parse_fields(value: bytes) -> Generator[ParsedField, None, None]:
         )
 
 
+def _equal_or_both_nan(a: Any, b: Any) -> bool:
+    """``a == b`` where two nan floats count as equal, element-wise for lists and dicts."""
+    if isinstance(a, float) and isinstance(b, float):
+        return a == b or (math.isnan(a) and math.isnan(b))
+    if isinstance(a, list) and isinstance(b, list):
+        return len(a) == len(b) and all(map(_equal_or_both_nan, a, b))
+    if isinstance(a, dict) and isinstance(b, dict):
+        return a.keys() == b.keys() and all(
+            _equal_or_both_nan(value, b[key]) for key, value in a.items()
+        )
+    return a == b
+
+
 class ProtoClassMetadata:
     __slots__ = (
         "oneof_group_by_field",
@@ -804,13 +817,8 @@ class Message(ABC):
             if self_val != other_val:
                 # We consider two nan values to be the same for the
                 # purposes of comparing messages (otherwise a message
-                # is not equal to itself)
-                if (
-                    isinstance(self_val, float)
-                    and isinstance(other_val, float)
-                    and math.isnan(self_val)
-                    and math.isnan(other_val)
-                ):
+                # is not equal to itself), also inside repeated and map fields
+                if _equal_or_both_nan(self_val, other_val):
                     continue
                 else:
                     return False
